@@ -210,4 +210,76 @@ def rule_rot(ctx) -> RuleResult:
     return res
 
 
-RULES = [rule_cache, rule_rot]
+def rule_origin(ctx) -> RuleResult:
+    import ast
+
+    from ..model import unparse
+
+    res = RuleResult(
+        "C17.ORIGIN",
+        "C17",
+        "every class whose geometry code reads the origin by field name (self.origin['x']) stores only structured "
+        "(x, y, z) records in _origin — in the setter and in the constructor default alike: centres can be computed "
+        "whether or not an origin was given",
+        floor=2,
+    )
+    p = ctx.p
+    for K in p.subclasses(p.cls("GridObject")):
+        if K.synthetic:
+            continue
+        reads = False
+        for c in K.mro:
+            if isinstance(c, str):
+                continue
+            fns = list(c.methods.values()) + [f for pr in c.props.values() for f in (pr.getter, pr.setter) if f is not None]
+            for fn in fns:
+                sn = fn.self_name or "self"
+                str_loop_vars = {t.id for lp in ast.walk(fn.node) if isinstance(lp, ast.For) for t in ast.walk(lp.target) if isinstance(t, ast.Name)
+                                 if any(isinstance(e, ast.Constant) and isinstance(e.value, str) for e in ast.walk(lp.iter))}
+                if any(isinstance(x, ast.Subscript) and unparse(x.value) == f"{sn}.origin"
+                       and (isinstance(x.slice, ast.Constant) and isinstance(x.slice.value, str) or isinstance(x.slice, ast.Name) and x.slice.id in str_loop_vars)
+                       for x in ast.walk(fn.node)):
+                    reads = True
+        if not reads:
+            continue
+        for c in K.mro:
+            if isinstance(c, str):
+                continue
+            fns = list(c.methods.values()) + [f for pr in c.props.values() for f in (pr.getter, pr.setter) if f is not None and f.cls is c]
+            for fn in fns:
+                sn = fn.self_name or "self"
+                local = {}
+                for n in sorted((x for x in ast.walk(fn.node) if hasattr(x, "lineno")), key=lambda x: (x.lineno, x.col_offset)):
+                    if isinstance(n, (ast.Assign, ast.AnnAssign)) and n.value is not None:
+                        tg = n.targets if isinstance(n, ast.Assign) else [n.target]
+                        for t in tg:
+                            if isinstance(t, ast.Name):
+                                local.setdefault(t.id, []).append(n.value)
+
+                def structured(v, depth=0):
+                    if isinstance(v, ast.Call) and unparse(v.func) in ("np.asarray", "np.array", "numpy.asarray", "numpy.array"):
+                        dt = next((k.value for k in v.keywords if k.arg == "dtype"), None)
+                        if dt is not None:
+                            names = [e.elts[0].value for e in getattr(dt, "elts", []) if isinstance(e, ast.Tuple) and e.elts and isinstance(e.elts[0], ast.Constant)]
+                            return names == ["x", "y", "z"]
+                        return False
+                    if isinstance(v, ast.Name) and v.id in local and depth < 3:
+                        # the last binding decides (the setters normalise `value` step by step)
+                        return structured(local[v.id][-1], depth + 1)
+                    return False
+
+                for n in ast.walk(fn.node):
+                    if isinstance(n, (ast.Assign, ast.AnnAssign)) and n.value is not None:
+                        tg = n.targets if isinstance(n, ast.Assign) else [n.target]
+                        if any(unparse(t) == f"{sn}._origin" for t in tg):
+                            ok = structured(n.value)
+                            if c is K or K.lookup("origin") is not None:
+                                res.inst(f"{K.name}: {fn.qualname}:{n.lineno} stores {unparse(n.value)[:40]} in _origin", nontrivial=True, ok=ok)
+                                if not ok:
+                                    res.find(c.name, fn.prop or fn.name, f"_origin = {unparse(n.value)[:40]} is not an (x, y, z) record", f"{fn.module.relpath}:{n.lineno}",
+                                             f"{K.name}'s geometry reads self.origin['x'/'y'/'z']; with this value stored the centroids getter raises IndexError "
+                                             "(e.g. an object created without an explicit origin)", resolved_on=K.name)
+    return res
+
+
+RULES = [rule_cache, rule_rot, rule_origin]
